@@ -207,6 +207,10 @@ class Interp:
             if hook:
                 return self.truth(hook(self, v))
             raise Unsupported(f"truth value of opaque {v!r}")
+        if isinstance(v, STerm):
+            hook = self.spec.opaque_hooks.get("sterm_truth")
+            if hook:
+                return self.truth(hook(self, v))
         if isinstance(v, SymStream):
             hook = self.spec.opaque_hooks.get("stream_truth")
             if hook:
@@ -355,6 +359,10 @@ class Interp:
         m = method_of(self, v, name)
         if m is not None:
             return m
+        if isinstance(v, STerm):
+            hook = self.spec.opaque_hooks.get("sterm_getattr")
+            if hook:
+                return hook(self, v, name)
         if isinstance(v, Opaque) and hasattr(v, "m_getattr"):
             return v.m_getattr(self, name)
         if isinstance(v, Opaque):
